@@ -73,3 +73,62 @@ package corerad
 //@   ensures E3 [C09]: ghost.invalid == old(ghost.invalid) + ghost.bad
 //@   ensures E4 [C10]: result2 != nil ==> result0 == nil
 //@   opt safety [C09,C10]
+
+// ---------------------------------------------------------------------------
+// verify.go (C12)
+
+//@ macro optsOK(opts) = forall(j, 0, len(opts), opts[j].tag != 0 && opts[j].val > 0)
+//@ macro hasOpt(opts, tag) = firstIdx(arr(opts), len(opts), tag) >= 0
+//@ macro firstOpt(opts, tag) = opts[firstIdx(arr(opts), len(opts), tag)]
+
+//@ func newProblem
+//@   requires P1: dyn(want) == dyn(got)
+//@   ensures E1: result.Field == field && result.Details == details
+//@   opt trusted formats a message with reflect/fmt; only Field and Details are modelled
+
+//@ func (*problems).push
+//@   requires P1: ps != nil && dyn(want) == dyn(got)
+//@   assigns heap(corerad.problems) at ps, new mem(corerad.problem)
+//@   ensures E1 [C12]: len(star(ps)) == old(len(star(ps))) + 1
+//@   ensures E2 [C12]: forall(j, 0, old(len(star(ps))), star(ps)[j] == old(star(ps)[j]))
+//@   ensures E3 [C12]: star(ps)[old(len(star(ps)))].Field == field && star(ps)[old(len(star(ps)))].Details == details
+//@   opt safety [C12]
+//@   opt frame [C12]
+
+//@ func (*problems).merge
+//@   requires P1: ps != nil
+//@   assigns heap(corerad.problems) at ps, new mem(corerad.problem)
+//@   ensures E1 [C12]: len(star(ps)) == old(len(star(ps))) + len(pss)
+//@   ensures E2 [C12]: forall(j, 0, old(len(star(ps))), star(ps)[j] == old(star(ps)[j]))
+//@   ensures E3 [C12]: forall(j, 0, len(pss), star(ps)[old(len(star(ps))) + j] == old(pss[j]))
+//@   opt safety [C12]
+//@   opt frame [C12]
+
+//@ func pickFirst
+//@   requires P1: optsOK(options)
+//@   loop 1 invariant I1 [C12]: 0 <= rangeindex + 1 && rangeindex + 1 <= len(options) && forall(j, 0, rangeindex + 1, !isType(options[j], "$T"))
+//@   ensures E1 [C12,C17]: result1 == hasOpt(options, tagOf("$T"))
+//@   ensures E2 [C12,C17]: result1 ==> result0 == as(firstOpt(options, tagOf("$T")), "$T") && result0 != nil
+//@   ensures E3 [C12]: !result1 ==> result0 == nil
+//@   opt safety [C12]
+
+//@ func checkDurations
+//@   ensures E1 [C12]: result == (want == 0 || got == 0 || want == got)
+
+//@ func checkMTUs
+//@   requires P1: optsOK(want) && optsOK(got)
+//@   assigns new heap(corerad.problems), new mem(corerad.problem)
+//@   ensures E1 [C12]: !(hasOpt(want, tagOf("*ndp.MTU")) && hasOpt(got, tagOf("*ndp.MTU"))) ==> len(result) == 0
+//@   ensures E2 [C12]: hasOpt(want, tagOf("*ndp.MTU")) && hasOpt(got, tagOf("*ndp.MTU")) ==> len(result) == b2i(as(firstOpt(want, tagOf("*ndp.MTU")), "*ndp.MTU").MTU != as(firstOpt(got, tagOf("*ndp.MTU")), "*ndp.MTU").MTU)
+//@   ensures E3 [C12]: len(result) == 1 ==> result[0].Field == "mtu" && result[0].Details == ""
+//@   opt safety [C12]
+//@   opt frame [C12]
+
+//@ func checkCaptivePortal
+//@   requires P1: optsOK(want) && optsOK(got)
+//@   assigns new heap(corerad.problems), new mem(corerad.problem)
+//@   ensures E1 [C12]: !(hasOpt(want, tagOf("*ndp.CaptivePortal")) && hasOpt(got, tagOf("*ndp.CaptivePortal"))) ==> len(result) == 0
+//@   ensures E2 [C12]: hasOpt(want, tagOf("*ndp.CaptivePortal")) && hasOpt(got, tagOf("*ndp.CaptivePortal")) ==> len(result) == b2i(as(firstOpt(want, tagOf("*ndp.CaptivePortal")), "*ndp.CaptivePortal").URI != as(firstOpt(got, tagOf("*ndp.CaptivePortal")), "*ndp.CaptivePortal").URI)
+//@   ensures E3 [C12]: len(result) == 1 ==> result[0].Field == "captive_portal" && result[0].Details == ""
+//@   opt safety [C12]
+//@   opt frame [C12]
